@@ -160,7 +160,7 @@ class Multisphere(ScatteringTheory):
             raise TheoryNotCompatibleError(self, scatterer)
         # check for spheres being uniform
         for sph in scatterer.scatterers:
-            if not np.isscalar(sph.n):
+            if np.ndim(sph.n) > 0:
                 raise TheoryNotCompatibleError(self, scatterer, "Multisphere" +
                                                " cannot compute scattering" +
                                                " from layered particles.")
